@@ -48,9 +48,63 @@ def te_versions(r, case, n=3):
     return out
 
 
-def window_versions(case):
+MAXC = 2**31 - 1
+
+
+def enrich_case(case, r):
+    """make the results of the world sensitive to every layer of cache: next to one gene of every chromosome put TEs inside the
+    smallest window on both sides and between consecutive windows of the window list (and just beyond it), so that every window
+    of every window version has its own value and a moved gene or TE changes numbers"""
+    case = copy.deepcopy(case)
     f, d, l = case["windows"]
-    return [[f, d, l], [f + 3, d, l + 3 + d]]
+    ws = list(range(f, l + 1, d))
+    marks = sorted(set([min(ws[0], 40) // 2 + 1] + [w + max(1, d // 2) for w in ws] + [ws[-1] + d + max(1, d // 2), ws[-1] + 3 + max(1, d // 3)]))
+    for ch in sorted(set(g["chrom"] for g in case["genes"])):
+        gs = sorted((g for g in case["genes"] if g["chrom"] == ch), key=lambda g: g["start"])
+        g = gs[len(gs) // 2]
+        mine = [t for t in case["tes"] if t["chrom"] == ch]
+        groups = sorted(set((t["order"], t["superfam"]) for t in mine))
+        for i, m in enumerate(marks):
+            o, sf = groups[i % len(groups)]
+            a = g["stop"] + m
+            if a + 9 <= MAXC:
+                case["tes"].append({"chrom": ch, "start": a, "stop": a + 9, "order": o, "superfam": sf, "strand": "+"})
+            b = g["start"] - m
+            if b - 6 >= 1:
+                case["tes"].append({"chrom": ch, "start": b - 6, "stop": b, "order": o, "superfam": sf, "strand": "-"})
+    return case
+
+
+WINDOW_KINDS = ("shift", "superset", "subset", "same_count", "same_ends")
+
+
+def window_variant(base, kind):
+    """a window configuration that differs from `base` in a particular way (what a guard comparing the windows of an overlap
+    file with the request might wrongly accept: a sub- or superset, the same number of windows, the same first and last)"""
+    f, d, l = base
+    ws = list(range(f, l + 1, d))
+    if kind == "superset":
+        return [f, d, ws[-1] + d]
+    if kind == "subset" and len(ws) >= 2:
+        return [f, d, ws[-2]]
+    if kind == "same_count" and len(ws) >= 2:
+        return [f, d + 1, f + (len(ws) - 1) * (d + 1)]
+    if kind == "same_ends" and len(ws) >= 3 and (ws[-1] - f) % 2 == 0 and (ws[-1] - f) // 2 != d:
+        return [f, (ws[-1] - f) // 2, ws[-1]]
+    return [f + 3, d, l + 3 + d]
+
+
+def window_versions(case, kinds=("shift", "superset")):
+    base = list(case["windows"])
+    out = [base]
+    for k in kinds:
+        v = window_variant(base, k)
+        n = 0
+        while any(list(range(v[0], v[2] + 1, v[1])) == list(range(o[0], o[2] + 1, o[1])) for o in out):
+            n += 1
+            v = [base[0] + 3 + n, base[1], base[2] + 3 + n + base[1]]
+        out.append(v)
+    return out
 
 
 # ----------------------------------------------------------------- canonical content
@@ -106,16 +160,17 @@ def results_summary(outdir):
 
 # ----------------------------------------------------------------- the world
 class World:
-    def __init__(self, case, r=None, root=None, nver=3, versions=None):
+    def __init__(self, case, r=None, root=None, nver=3, versions=None, wkinds=None):
         self.root = root or tempfile.mkdtemp(prefix="vhw_")
         self.case = case
         self.chroms = sorted(set(g["chrom"] for g in case["genes"]))
         if versions is not None:
             self.G, self.T, self.W = copy.deepcopy(versions)
         else:
+            case = enrich_case(case, r)
             self.G = gene_versions(r, case, nver)
             self.T = te_versions(r, case, nver)
-            self.W = window_versions(case)
+            self.W = window_versions(case, wkinds or tuple(r.sample(WINDOW_KINDS, 2)))
         self.genes_in = os.path.join(self.root, "genes.tsv")
         self.tes_in = os.path.join(self.root, "tes.tsv")
         self.cfg = os.path.join(self.root, "cfg.ini")
